@@ -403,7 +403,12 @@ Definition resolve_one (c : conflict) (t : tt) : res (tt * list rc) :=
       else Er "Unexpected"
   | CMissingParent x =>
       if memn x (removed_contents t)
-      then bind (op_cancel_deletion x t) (fun t' => Ok (t', [[12; 4; zt x]%Z]))
+      then (* _get_potential_orphans: self.by_parent()[dir_id] -- KeyError when an earlier resolver of the
+              same pass took the last child away; with the default policy the deletion is always cancelled *)
+           match bp_get (Some x) (by_parent t) with
+           | None => Er "KeyError"
+           | Some _ => bind (op_cancel_deletion x t) (fun t' => Ok (t', [[12; 4; zt x]%Z]))
+           end
       else bind (op_create KDir [] x t) (fun t' => Ok (t', [[4; 5; zt x]%Z]))
   | CUnversionedParent x =>
       match tree_file_id x with
